@@ -14,7 +14,7 @@ from .values import (EMPTY, VAL, ListRec, ObjRec, PyRaise, SBool, SBuiltin, SCar
 BUILTINS = {"len", "isinstance", "issubclass", "bool", "int", "str", "float", "list", "set", "frozenset", "dict", "tuple",
             "sorted", "any", "all", "sum", "max", "min", "hasattr", "getattr", "setattr", "type", "range", "enumerate",
             "zip", "print", "repr", "id", "abs", "round", "next", "iter", "callable", "reversed", "hash", "object",
-            "NotImplemented", "property", "staticmethod", "classmethod", "map", "filter", "vars", "open", "bytes", "super"}
+            "NotImplemented", "property", "staticmethod", "classmethod", "map", "filter", "vars", "open", "bytes", "super", "bytearray"}
 
 
 def _mk(cls: str, I, **fields):
@@ -107,6 +107,23 @@ def b_int(I, a, k):
     raise Unsupported(f"int() of {type(v).__name__}")
 
 
+def b_bytearray(I, a, k):
+    """bytearray(n): n zero bytes (a symbolic list of ints)."""
+    from .typesys import fresh_value
+
+    if len(a) != 1 or not isinstance(a[0], (SInt, SBool)):
+        raise Unsupported("bytearray() of something other than a length")
+    lst = fresh_value(I.st, I.typer, ("list", ("int",)), fresh_name("bytearray"), det=True)
+    n = I.ops.as_int(a[0])
+    if I.st.branch(n < 0):
+        I.raise_builtin("ValueError", "negative count")
+    arr = I._elem_array(lst.lid, "$v", z3.IntSort())
+    j = z3.Int(fresh_name("bj"))
+    I.st.assume(I.ops.list_len(lst) == n)
+    I.st.assume(z3.ForAll([j], z3.Select(arr, j) == 0))
+    return lst
+
+
 def b_float(I, a, k):
     v = a[0]
     if isinstance(v, (SInt, SBool, SFloat)):
@@ -143,7 +160,27 @@ b_repr = b_str
 def b_list(I, a, k):
     if not a:
         return I.ops.new_conc_list([])
-    return I.ops.new_derived(I.iter_segments(a[0]))
+    v = a[0]
+    if isinstance(v, SVal):
+        # list(<dynamic value>): for a list value a fresh list value with the same elements (a shallow copy); a dict or
+        # str value would iterate keys / characters, which the dynamic-value model does not represent
+        if I.st.branch(z3.Not(VAL.is_VList(v.t))):
+            if I.st.branch(z3.Or(VAL.is_VDict(v.t), VAL.is_VStr(v.t))):
+                # the keys of a dict value / the characters of a str value: some list about which nothing else is known
+                unk = z3.Int(fresh_name("vlist_of_keys"))
+                I.st.assume(vlist_len(unk) >= 0)
+                return SVal(VAL.VList(unk))
+            I.raise_builtin("TypeError", "object is not iterable")
+        src = VAL.vl(v.t)
+        cp = z3.Int(fresh_name("vlist_copy"))
+        j = z3.Int(fresh_name("j"))
+        I.st.assume(vlist_len(cp) == vlist_len(src))
+        I.st.assume(vlist_len(src) >= 0)
+        I.st.assume(z3.ForAll([j], vlist_get(cp, j) == vlist_get(src, j)))
+        s_ = z3.Int(fresh_name("s"))
+        I.st.assume(z3.ForAll([s_], vlist_has_str(cp, s_) == vlist_has_str(src, s_)))
+        return SVal(VAL.VList(cp))
+    return I.ops.new_derived(I.iter_segments(v))
 
 
 def b_tuple(I, a, k):
@@ -995,9 +1032,47 @@ def val_binop(I, op, a, b):
     return SVal(res)
 
 
+BITOPS_USED: set = set()
+
+
 def int_bitop(I, op, x, y):
-    f = z3.Function("int_" + type(op).__name__.lower(), z3.IntSort(), z3.IntSort(), z3.IntSort())
+    """<<, >>, |, &, ^ on integers are uninterpreted functions; the facts about them on BYTE operands that proofs may use
+    are supplied by bit_theory_facts() (each checked exhaustively against CPython's own operators)."""
+    nm = "int_" + type(op).__name__.lower()
+    BITOPS_USED.add(nm)
+    f = z3.Function(nm, z3.IntSort(), z3.IntSort(), z3.IntSort())
     return SInt(f(x, y))
+
+
+_BIT_FACTS_CHECKED = False
+
+
+def bit_theory_facts() -> list:
+    """For j in 0..7 and every byte x:   1 << j = 2^j;   x & 2^j is 2^j if bit j of x is set and 0 otherwise;
+    x | 2^j is x if bit j is set and x + 2^j otherwise -- where 'bit j of x is set' is (x // 2^j) % 2 == 1."""
+    global _BIT_FACTS_CHECKED
+    if not _BIT_FACTS_CHECKED:
+        for j in range(8):
+            assert (1 << j) == 2 ** j
+            for x in range(256):
+                setb = (x // 2 ** j) % 2 == 1
+                assert (x & (2 ** j)) == (2 ** j if setb else 0)
+                assert (x | (2 ** j)) == (x if setb else x + 2 ** j)
+        _BIT_FACTS_CHECKED = True
+    if not BITOPS_USED:
+        return []
+    shl = z3.Function("int_lshift", z3.IntSort(), z3.IntSort(), z3.IntSort())
+    band = z3.Function("int_bitand", z3.IntSort(), z3.IntSort(), z3.IntSort())
+    bor = z3.Function("int_bitor", z3.IntSort(), z3.IntSort(), z3.IntSort())
+    x = z3.Int("byte_x")
+    out = []
+    for j in range(8):
+        m = 2 ** j
+        out.append(shl(z3.IntVal(1), z3.IntVal(j)) == m)
+        setb = (x / m) % 2 == 1
+        out.append(z3.ForAll([x], z3.Implies(z3.And(x >= 0, x < 256), band(x, z3.IntVal(m)) == z3.If(setb, m, 0))))
+        out.append(z3.ForAll([x], z3.Implies(z3.And(x >= 0, x < 256), bor(x, z3.IntVal(m)) == z3.If(setb, x, x + m))))
+    return out
 
 
 def do_slice(I, obj, sl, env):
